@@ -210,3 +210,7 @@ class GenericSubTLV(SubTLV):
 
     def json(self) -> str:
         return f'"unknown-subtlv-{self._subtype}": "{hexstring(self._packed)}"'
+
+    def __str__(self) -> str:
+        # without it the text form was the default repr, an address which changes at every decode
+        return f'unknown-subtlv-{self._subtype} {hexstring(self._packed)}'
